@@ -13,16 +13,31 @@ import py2coq_sd as S
 from py2coq_sd import Fn, Unsupported, fail, COQ_TY, DFLT
 
 REPO = S.REPO
+D = ast.dump
 OUT = os.path.join(S.OUTDIR, "PySrcRetained.v")
-COQ_TY.update({"retdict": "retained", "bddobj": "unit"})
-DFLT.update({"retdict": "(@nil (nat * bool))", "bddobj": "Datatypes.tt", "space": "(@nil (option bool))", "nat": "0"})
+COQ_TY.update({"retdict": "retained", "bddobj": "unit", "pstate": "pst", "greedyres": "(pst * option (retained * list state))"})
+DFLT.update({"retdict": "(@nil (nat * bool))", "bddobj": "Datatypes.tt", "space": "(@nil (option bool))", "nat": "0", "pstate": "st0_", "statelist": "(@nil state)", "bool": "false"})
+
+SPEC_G = dict(name="asp_greedy_retained_set_optimization", path="biobalm/_sd_attractors/attractor_candidates.py", greedy=True,
+              args=[("retained_set", "retdict"), ("candidate_states", "statelist"), ("avoid_dnf", "spacelist")], ret="greedyres", defaults={},
+              locs={"done": "bool", "retained_set": "retdict", "candidate_states": "statelist", "retained_set_2": "retdict", "candidate_states_2": "statelist", "st_p": "pstate"},
+              loopvars={"var": "nat"}, alias=[], fuels=["fuel"])
+SOLVE = D(ast.parse(textwrap.dedent('''
+compute_fixed_point_reduced_STG(
+    petri_net,
+    retained_set_2,
+    avoid_subspaces=avoid_dnf,
+    # We don't need all solutions if the result isn't smaller.
+    solution_limit=len(candidate_states),
+)
+''').strip(), mode="eval").body)
+FLIP = D(ast.parse("cast(Literal[0, 1], 1 - retained_set_2[var])", mode="eval").body)
 
 SPEC = dict(name="make_heuristic_retained_set", path="biobalm/_sd_attractors/attractor_candidates.py",
             args=[("nfvs", "natlist"), ("avoid_dnf", "spacelist")], ret="retdict", defaults={},
             locs={"retained_set": "retdict", "least_common_child_space": "space", "least_common_nodes": "nat", "common_nodes": "nat"},
             loopvars={"child_space": "space", "x": "nat"}, alias=[], fuels=[])
 
-D = ast.dump
 MAJORITY = [D(x) for x in ast.parse(textwrap.dedent('''
 fn_bdd = graph.mk_update_function(x)
 if fn_bdd.cardinality() > fn_bdd.l_not().cardinality():
@@ -60,6 +75,13 @@ class RFn(Fn):
             elif isname(c, "natlist"): t = f"(mem_nat {e.left.id} {c.id})"
             if t is not None:
                 return (t if isinstance(e.ops[0], ast.In) else f"(negb {t})", False, "bool")
+        if self.spec.get("greedy"):
+            # len(candidate_states) / len(avoid_dnf)
+            if isinstance(e, ast.Call) and isinstance(e.func, ast.Name) and e.func.id == "len" and len(e.args) == 1 and not e.keywords and isname(e.args[0], "statelist"):
+                return (f"(length {e.args[0].id})", False, "nat")
+            # retained_set.copy(): immutable value
+            if isinstance(e, ast.Call) and isinstance(e.func, ast.Attribute) and e.func.attr == "copy" and not e.args and not e.keywords and isname(e.func.value, "retdict"):
+                return (e.func.value.id, False, "retdict")
         if isinstance(e, ast.Dict) and not e.keys and want == "retdict":
             return (DFLT["retdict"], False, "retdict")
         return super().expr(e, want)
@@ -70,6 +92,10 @@ class RFn(Fn):
         s, rest = stmts[0], stmts[1:]
         if isinstance(s, ast.Expr) and isinstance(s.value, ast.Constant) and isinstance(s.value.value, str):
             return self.block(rest)
+        if self.spec.get("greedy"):
+            r = self.greedy_stmt(s, stmts, rest)
+            if r is not None:
+                return r
         # fn_bdd = graph.mk_update_function(x); if most valuations are true: retained_set[x] = 1 else: retained_set[x] = 0
         if isinstance(s, ast.Assign) and len(s.targets) == 1 and isinstance(s.targets[0], ast.Name) and s.targets[0].id == "fn_bdd":
             if [D(z) for z in stmts[:2]] != MAJORITY or self.env.get("x") != "nat": fail(s, "the majority test differs from the reference text")
@@ -105,6 +131,69 @@ class RFn(Fn):
         return super().block(stmts)
 
 
+def _greedy_stmt(self, s, stmts, rest):
+    isn = lambda x, n: isinstance(x, ast.Name) and x.id == n
+    # debug print blocks of this function: if sd.config["debug"]: print(...)
+    if isinstance(s, ast.If) and not s.orelse and D(s.test) == "Subscript(value=Attribute(value=Name(id='sd', ctx=Load()), attr='config', ctx=Load()), slice=Constant(value='debug'), ctx=Load())" \
+            and all(isinstance(b, ast.Expr) and isinstance(b.value, ast.Call) and isn(b.value.func, "print") for b in s.body):
+        return self.block(rest)
+    # return (retained_set, []) / (retained_set, candidate_states)
+    if isinstance(s, ast.Return) and isinstance(s.value, ast.Tuple) and len(s.value.elts) == 2 and isn(s.value.elts[0], "retained_set"):
+        b = s.value.elts[1]
+        if isinstance(b, ast.List) and not b.elts: c = "(@nil state)"
+        elif isn(b, "candidate_states"): c = "candidate_states"
+        else: fail(s, "returned candidates")
+        return f"(SRet sd_ (st_p, Some (retained_set, {c})))"
+    # retained_set_2[var] = cast(Literal[0, 1], 1 - retained_set_2[var])
+    if isinstance(s, ast.Assign) and len(s.targets) == 1 and D(s.targets[0]) == "Subscript(value=Name(id='retained_set_2', ctx=Load()), slice=Name(id='var', ctx=Load()), ctx=Store())":
+        if D(s.value) != FLIP or self.env.get("var") != "nat": fail(s, "the flipped value")
+        self.need_state("retained_set_2", s)
+        return (f"(match find (fun p_ => Nat.eqb (fst p_) var) retained_set_2 with Some p_ => "
+                f"let retained_set_2 := ret_set var (negb (snd p_)) retained_set_2 in {self.block(rest)} | None => SBad sd_ end)")      # KeyError
+    # candidate_states_2 = compute_fixed_point_reduced_STG(petri_net, retained_set_2, avoid_subspaces=avoid_dnf, solution_limit=len(candidate_states))
+    if isinstance(s, ast.Assign) and len(s.targets) == 1 and isn(s.targets[0], "candidate_states_2"):
+        if D(s.value) != SOLVE: fail(s, "the solver call differs from the reference text")
+        for v in ("candidate_states_2", "st_p"): self.need_state(v, s)
+        return (f"(let '(st1_, o_) := solve st_p retained_set_2 (Some (length candidate_states)) in let st_p := st1_ in "
+                f"match o_ with Some candidate_states_2 => {self.block(rest)} | None => SRet sd_ (st_p, None) end)")
+    # for var in retained_set: the keys of the dict object the loop started with
+    if isinstance(s, ast.For) and not s.orelse and isn(s.target, "var") and isn(s.iter, "retained_set"):
+        if any(isinstance(n_, ast.Break) for n_ in S.walk_no_loops(s.body)): fail(s, "break")
+        body = self.block(s.body)
+        head = (f"(s_for (map fst retained_set) (fun var sd_ (st_ : {self.st_ty()}) => let {self.st_pat()} := st_ in ({body} : {self.flow_ty()})) sd_ {self.st_tuple()})")
+        return self.seq(head, rest)
+    return None
+RFn.greedy_stmt = _greedy_stmt
+
+
+def translate_greedy():
+    spec = SPEC_G
+    mod = ast.parse(open(os.path.join(REPO, spec["path"])).read())
+    nodes = [n for n in mod.body if isinstance(n, ast.FunctionDef) and n.name == spec["name"]]
+    if len(nodes) != 1: raise Unsupported(f"{spec['path']}: function {spec['name']} not found exactly once")
+    node = nodes[0]
+    a = node.args
+    if a.vararg or a.kwarg or a.kwonlyargs or a.posonlyargs or a.defaults or node.decorator_list \
+            or [x.arg for x in a.args] != ["sd", "node_id", "petri_net", "retained_set", "candidate_states", "avoid_dnf"]:
+        raise Unsupported(f"{spec['name']}: signature changed")
+    fn = RFn(spec)
+    locs = dict(spec["locs"])
+    fn.state = S.assigned_locals(node, locs)
+    for hidden in ("retained_set_2", "st_p"):
+        if hidden not in fn.state: fn.state.append(hidden)
+    body = fn.block(node.body)
+    if fn.fuels: raise Unsupported(f"{spec['name']}: fewer while loops than declared")
+    params = {"retained_set", "candidate_states"}
+    init = "".join(f"let {v} := {DFLT[locs[v]]} in " for v in fn.state if v not in params)
+    # falling off the end is impossible (the function ends in a return): the closing SNext is read as a Python run-time error
+    return "\n".join([
+        f"(* {spec['path']}: def {spec['name']}(sd, node_id, petri_net, retained_set, candidate_states, avoid_dnf)",
+        "   compute_fixed_point_reduced_STG is the next entry of the solver tape (Candidates.solve: the call is logged; an exhausted tape ends the run with None) *)",
+        f"Definition py_{spec['name']} (fuel : nat) (st0_ : pst) (retained_set : retained) (candidate_states : list state) (avoid_dnf : list space) : option (pst * option (retained * list state)) :=",
+        f"  let sd_ := no_sd in {init}",
+        "  s_value\n" + textwrap.indent(S.pretty(f"({body} : {fn.flow_ty()})"), "    ") + ".", ""])
+
+
 def translate():
     spec = SPEC
     mod = ast.parse(open(os.path.join(REPO, spec["path"])).read())
@@ -132,7 +221,7 @@ def translate():
         f"(* {spec['path']}: def {spec['name']}(graph, nfvs, avoid_dnf) *)",
         f"Definition py_{spec['name']} (N : net) (S_ : space) (nfvs : list nat) (avoid_dnf : list space) : option retained :=",
         f"  let sd_ := no_sd in {init}",
-        "  s_value\n" + textwrap.indent(S.pretty(f"({body} : {fn.flow_ty()})"), "    ") + ".", ""])
+        "  s_value\n" + textwrap.indent(S.pretty(f"({body} : {fn.flow_ty()})"), "    ") + ".", "", translate_greedy()])
 
 
 def main(argv):
